@@ -3,8 +3,8 @@
 Monitor: a commuting diagram over pyanalyze's own evaluators, no external model.
 
 Part 1 (annotation expressions).  Every generated annotation expression E is pushed through
-    A   visitor route        `def f(x: E): return x`   in the checked module (annotate=True, value of the Name)
-    Bv  visitor, quoted      `def f(x: "E"): return x` in the checked module
+    A   visitor route        `def f(x: E): x`   in the checked module (annotate=True, inferred value of the Name)
+    Bv  visitor, quoted      `def f(x: "E"): x` in the checked module
     Bs  string route         type_from_runtime("E", globals=<module dict>)
     Cr  runtime route        type_from_runtime(eval(E), globals=<module dict>)
     Cs  imported function    Checker.get_signature(f).parameters["x"].annotation, f defined in a separately
@@ -64,11 +64,14 @@ LEVEL_TEXT = (
     "agreement of the real evaluators on every generated declaration, nothing is proved beyond the explored cases"
 )
 FLOORS = {
-    "quick": {"distinct_nontrivial": 6000, "ann_cases": 5000, "route_pairs_compared": 60000, "classbody_cases": 200,
-              "td_cases": 200, "headers": 900, "sig_params_compared": 2000, "calls_compared": 5000,
-              "calls_both_diagnosed": 500, "calls_both_clean": 300},
-    "thorough": {"distinct_nontrivial": 40000, "ann_cases": 35000, "route_pairs_compared": 400000, "classbody_cases": 1500,
-                 "td_cases": 1500, "headers": 6000, "sig_params_compared": 15000, "calls_compared": 35000},
+    "quick": {"distinct_nontrivial": 6000, "ann_cases": 4500, "ann_all_routes_agree": 3500, "route_pairs_compared": 70000,
+              "classbody_cases": 200, "td_cases": 600, "td_field_type_compared": 500, "headers": 800,
+              "signatures_agree": 600, "sig_params_compared": 2800, "calls_compared": 5000,
+              "calls_both_diagnosed": 2500, "calls_both_clean": 2000},
+    "thorough": {"distinct_nontrivial": 45000, "ann_cases": 35000, "ann_all_routes_agree": 25000,
+                 "route_pairs_compared": 450000, "classbody_cases": 600, "td_cases": 7000, "td_field_type_compared": 5000,
+                 "headers": 5000, "signatures_agree": 4000, "sig_params_compared": 22000, "calls_compared": 30000,
+                 "calls_both_diagnosed": 20000, "calls_both_clean": 8000},
 }
 NSHARDS = 16
 WATCHDOG_S = {"quick": 900, "thorough": 7200}
@@ -95,6 +98,7 @@ class Num(enum.IntEnum):
 T = TypeVar("T")
 TB = TypeVar("TB", bound=A)
 TC = TypeVar("TC", int, str)
+TBF = TypeVar("TBF", bound="A")
 NT = NewType("NT", int)
 NTA = NewType("NTA", A)
 class TD(TypedDict):
@@ -185,6 +189,8 @@ ATOMS = [
     atom("type", "bare.type"), atom("tuple", "bare.tuple"), atom("Tuple", "bare.Tuple"), atom("Type", "bare.Type"),
     atom("Callable", "bare.Callable"), atom("list", "bare.list"), atom("List", "bare.List"), atom("dict", "bare.dict"),
     atom('"A"', "fwdref"), atom('"int"', "fwdref"), atom("'B'", "fwdref"),
+    atom('"List[A]"', "fwdref.generic"), atom('"Optional[A]"', "fwdref.Optional"), atom('"A | None"', "fwdref.bitor"),
+    atom("TBF", "TypeVar.bound-fwdref"),
     atom(f"{PRELUDE_NAME}.A", "attribute.class"),
     atom("Literal[1]", "Literal.int"), atom("Literal['a']", "Literal.str"), atom("Literal[b'x']", "Literal.bytes"),
     atom("Literal[True]", "Literal.bool"), atom("Literal[None]", "Literal.None"), atom("Literal[Color.RED]", "Literal.enum"),
@@ -269,9 +275,16 @@ def runtime_valid(e: E) -> bool:
     return r
 
 
+def gen_rng(ctx, what: str):
+    import random
+
+    return random.Random(f"{ID}/{ctx.seed}/{what}")
+
+
 def gen_expressions(ctx):
-    """Deterministic part (depth 1 exhaustive, depth 2 constructor pairs) + seeded random part. Yields E."""
-    rng = ctx.rng
+    """Deterministic part (depth 1 exhaustive, depth 2 constructor pairs) + seeded random part. Yields E.
+    The stream is a function of the seed only (not of the shard), so that `ctx.mine(index)` partitions it."""
+    rng = gen_rng(ctx, "expressions")
     # depth 0
     for a in ATOMS:
         yield a
@@ -280,15 +293,15 @@ def gen_expressions(ctx):
         form, arity, _ = con
         fill = [INT, STR, INT]
         for slot in range(arity):
-            for a in ATOMS:
+            for a in (ATOMS if slot == 0 or not ctx.quick else ATOMS[::3]):
                 kids = list(fill[:arity])
                 kids[slot] = a
                 yield build(con, kids)
-    # depth 2: every ordered pair of constructors, inner in every slot of outer
-    n_atoms = ctx.pick(1, 4)
+    # depth 2: every ordered pair of constructors, inner in the first (quick) / every (thorough) slot of outer
+    n_atoms = ctx.pick(1, 3)
     for outer in CONSTRUCTORS:
         for inner in INNER_CONSTRUCTORS:
-            for slot in range(outer[1]):
+            for slot in range(1 if ctx.quick else outer[1]):
                 for rep in range(n_atoms):
                     if rep == 0:
                         ikids = [INT, STR, INT][: inner[1]]
@@ -300,7 +313,7 @@ def gen_expressions(ctx):
                     okids[slot] = build(inner, ikids)
                     yield build(outer, okids)
     # depth 3: random
-    for _ in range(ctx.pick(6000, 110000)):
+    for _ in range(ctx.pick(2500, 45000)):
         yield random_expr(rng, 3, top=True)
 
 
@@ -335,26 +348,146 @@ def show(v) -> str:
     if isinstance(v, Exc):
         return repr(v)
     try:
-        return f"{harness.normalise_text(str(v))} ({type(v).__name__})"
+        return f"{stable_str(v)} ({type(v).__name__})"
     except Exception as e:  # noqa: BLE001
         return f"<str() raised {type(e).__name__}>"
 
 
+_RESOLVED: dict = {}
+
+
+def _resolve_typ(typ):
+    """TypedValue.typ is 'the underlying type, or a fully qualified reference to one': resolve the reference."""
+    if not isinstance(typ, str):
+        return typ
+    if typ not in _RESOLVED:
+        obj = typ
+        mod, _, name = typ.rpartition(".")
+        try:
+            obj = getattr(importlib.import_module(mod), name)
+        except Exception:  # noqa: BLE001
+            pass
+        _RESOLVED[typ] = obj
+    return _RESOLVED[typ]
+
+
+def _fields(obj):
+    import dataclasses
+
+    return [f.name for f in dataclasses.fields(obj) if f.compare]
+
+
+def same(x, y, depth: int = 0) -> bool:
+    """Structural equality of two values up to representation: union members as a set, a string reference to a class
+    equals the class, cached type objects ignored."""
+    import dataclasses
+
+    from pyanalyze.value import MultiValuedValue, TypedValue
+
+    if depth > 40:
+        return False
+    try:
+        if x is y or x == y:
+            return True
+    except Exception:  # noqa: BLE001
+        pass
+    x, y = norm(x, depth), norm(y, depth)
+    if isinstance(x, MultiValuedValue) and isinstance(y, MultiValuedValue):
+        return (all(any(same(a, b, depth + 1) for b in y.vals) for a in x.vals)
+                and all(any(same(a, b, depth + 1) for a in x.vals) for b in y.vals))
+    if type(x) is not type(y):
+        return False
+    if isinstance(x, (tuple, list)):
+        return len(x) == len(y) and all(same(a, b, depth + 1) for a, b in zip(x, y))
+    if isinstance(x, dict):
+        return list(x) == list(y) and all(same(x[k], y[k], depth + 1) for k in x)
+    if dataclasses.is_dataclass(x) and not isinstance(x, type):
+        for name in _fields(x):
+            a, b = getattr(x, name), getattr(y, name)
+            if name == "typ" and isinstance(x, TypedValue):
+                a, b = _resolve_typ(a), _resolve_typ(b)
+            if not same(a, b, depth + 1):
+                return False
+        return True
+    return False
+
+
+def populate(v, seen=None, depth: int = 0) -> None:
+    """str() of a TypedValue depends on whether its type object has been looked up (a cache): look all of them up."""
+    import dataclasses
+
+    from pyanalyze.value import TypedValue
+
+    if seen is None:
+        seen = set()
+    if id(v) in seen or depth > 40:
+        return
+    seen.add(id(v))
+    if isinstance(v, (tuple, list)):
+        for a in v:
+            populate(a, seen, depth + 1)
+    elif isinstance(v, dict):
+        for a in v.values():
+            populate(a, seen, depth + 1)
+    elif dataclasses.is_dataclass(v) and not isinstance(v, type) and type(v).__module__.startswith("pyanalyze"):
+        if isinstance(v, TypedValue):
+            try:
+                v.get_type_object(checker())
+            except Exception:  # noqa: BLE001
+                pass
+        for f in dataclasses.fields(v):
+            if f.name != "_type_object":
+                populate(getattr(v, f.name, None), seen, depth + 1)
+
+
+def stable_str(v) -> str:
+    populate(v)
+    return harness.normalise_text(str(v))
+
+
+def distribute(v):
+    """Annotated[X | Y, m] and Annotated[X, m] | Annotated[Y, m] are the same type; reading a variable yields the
+    second spelling (flattened by pyanalyze's own annotate_value), evaluating an annotation the first. Compare in
+    the distributed spelling (top level only)."""
+    from pyanalyze.value import AnnotatedValue, MultiValuedValue, annotate_value
+
+    if isinstance(v, AnnotatedValue) and isinstance(v.value, MultiValuedValue):
+        return MultiValuedValue([annotate_value(m, v.metadata) for m in v.value.vals])
+    return v
+
+
+def norm(v, depth: int = 0):
+    """A union is a set: Annotated distributed over it, duplicate members dropped, a one-member union is its member."""
+    from pyanalyze.value import MultiValuedValue
+
+    v = distribute(v)
+    if isinstance(v, MultiValuedValue) and v.vals:
+        uniq: list = []
+        for m in v.vals:
+            m = norm(m, depth + 1) if depth < 40 else m
+            for u in (m.vals if isinstance(m, MultiValuedValue) else (m,)):
+                if not any(same(u, w, depth + 1) for w in uniq):
+                    uniq.append(u)
+        if len(uniq) == 1:
+            return uniq[0]
+        return MultiValuedValue(uniq)
+    return v
+
+
 def agree(x, y) -> bool:
-    """The statement's 'means the same type': ==, or mutually assignable with the same rendering."""
+    """The statement's 'means the same type': structurally equal up to representation, or mutually assignable with
+    the same rendering."""
     from pyanalyze.value import CanAssignError
 
     if isinstance(x, Exc) or isinstance(y, Exc):
         return isinstance(x, Exc) and isinstance(y, Exc) and x.typ == y.typ
     if x is None or y is None:
         return x is None and y is None
+    if same(x, y):
+        return True
+    x, y = norm(x), norm(y)
     try:
-        if x == y:
-            return True
-    except Exception:  # noqa: BLE001
-        pass
-    try:
-        if str(x) != str(y):
+        if stable_str(x) != stable_str(y):
             return False
         c = checker()
         return not isinstance(x.can_assign(y, c), CanAssignError) and not isinstance(y.can_assign(x, c), CanAssignError)
@@ -460,7 +593,7 @@ def _def_src(i: int, e: E, quoted: bool) -> list:
     ann = repr(e.src) if quoted else e.src
     if context_of(e) == "class":
         return [f"class K{i}:", f"    a: {ann} = ANYV", "    a"]
-    return [f"def f{i}(x: {ann}):", "    return x"]
+    return [f"def f{i}(x: {ann}):", "    x"]
 
 
 def _td_src(i: int, t: TDCase) -> list:
@@ -484,9 +617,11 @@ def _read_module(res, tree, n: int, ntd: int) -> tuple:
             if not idx.isdigit():
                 continue
             ret = node.body[-1]
-            v = getattr(ret.value, "inferred_value", None)
+            # an internal error while visiting the def is an exception on this route, whatever placeholder the
+            # visitor left on the nodes
+            v = internal_error_of([d for ln in range(node.lineno, ret.lineno + 1) for d in by_line.get(ln, [])])
             if v is None:
-                v = internal_error_of([d for ln in range(node.lineno, ret.lineno + 1) for d in by_line.get(ln, [])])
+                v = getattr(ret.value, "inferred_value", None)
             if kind == "f":
                 out[int(idx)] = v
             elif kind == "t":
@@ -495,9 +630,9 @@ def _read_module(res, tree, n: int, ntd: int) -> tuple:
                 attr[int(idx)] = v
         elif isinstance(node, ast.ClassDef) and node.name.startswith("K") and node.name[1:].isdigit():
             read = node.body[-1]
-            v = getattr(read.value, "inferred_value", None)
+            v = internal_error_of([d for ln in range(node.lineno, read.lineno + 1) for d in by_line.get(ln, [])])
             if v is None:
-                v = internal_error_of([d for ln in range(node.lineno, read.lineno + 1) for d in by_line.get(ln, [])])
+                v = getattr(read.value, "inferred_value", None)
             out[int(node.name[1:])] = v
     return out, tds, attr
 
@@ -516,7 +651,7 @@ def eval_batch(exprs: list, tdcases: list) -> tuple:
         lines += _def_src(i, e, False)
     for j, t in enumerate(tdcases):
         lines += _td_src(j, t)
-        lines += [f"def t{j}(x: TDX{j}):", "    return x"]
+        lines += [f"def t{j}(x: TDX{j}):", "    x"]
     d_src = "\n".join(lines) + "\n"
     dmod = make_module(d_src)
     lines = [FUTURE + HEADER]
@@ -531,10 +666,10 @@ def eval_batch(exprs: list, tdcases: list) -> tuple:
         for i, e in enumerate(exprs):
             lines += _def_src(i, e, False)
             if context_of(e) == "class":
-                lines += [f"def g{i}(k: _D.K{i}):", "    return k.a"]
+                lines += [f"def g{i}(k: _D.K{i}):", "    k.a"]
         for j, t in enumerate(tdcases):
             lines += _td_src(j, t)
-            lines += [f"def t{j}(x: TDX{j}):", "    return x"]
+            lines += [f"def t{j}(x: TDX{j}):", "    x"]
         a_src = "\n".join(lines) + "\n"
         a_tree = ast.parse(a_src)
         a_res = harness.run(a_src, tree=a_tree, annotate=True, keep_module=True, extra_scope={"_D": dmod})
@@ -545,7 +680,7 @@ def eval_batch(exprs: list, tdcases: list) -> tuple:
             lines += _def_src(i, e, True)
         for j, t in enumerate(tdcases):
             lines += _td_src(j, t)
-            lines += [f"def t{j}(x: 'TDX{j}'):", "    return x"]
+            lines += [f"def t{j}(x: 'TDX{j}'):", "    x"]
         b_src = "\n".join(lines) + "\n"
         b_tree = ast.parse(b_src)
         b_res = harness.run(b_src, tree=b_tree, annotate=True, keep_module=True)
@@ -629,9 +764,31 @@ def disagrees(o: dict) -> bool:
     return len(partition(o)) > 1
 
 
-def minimise(e: E) -> E:
-    """Descend into the smallest sub-expression that still shows a route disagreement, then replace
-    children that do not matter by `int`."""
+def prefetch(es) -> None:
+    """Evaluate many single expressions in one go (fills the memo used by minimise)."""
+    todo, seen = [], set()
+    for e in es:
+        if e.src in _SINGLE or e.src in seen:
+            continue
+        seen.add(e.src)
+        if not runtime_valid(e):
+            _SINGLE[e.src] = None
+            continue
+        todo.append(e)
+    for i in range(0, len(todo), BATCH):
+        chunk = todo[i:i + BATCH]
+        try:
+            outs = eval_batch(chunk, [])[0]
+        except BatchCrash:
+            for e in chunk:
+                eval_single(e)
+            continue
+        for e, o in zip(chunk, outs):
+            _SINGLE[e.src] = o
+
+
+def descend(e: E) -> E:
+    """The smallest sub-expression that still shows a route disagreement."""
     changed = True
     while changed:
         changed = False
@@ -643,6 +800,19 @@ def minimise(e: E) -> E:
                 e = k
                 changed = True
                 break
+    return e
+
+
+def plain_fill(e: E) -> Optional[E]:
+    con = next((c for c in CONSTRUCTORS if c[0] == e.form), None)
+    if con is None or not e.kids:
+        return None
+    return build(con, [INT, STR, INT][: con[1]])
+
+
+def minimise(e: E) -> E:
+    """Descend into the smallest disagreeing sub-expression, then replace children that do not matter by int/str."""
+    e = descend(e)
     base = eval_single(e)
     if base is None or not e.kids:
         return e
@@ -650,6 +820,11 @@ def minimise(e: E) -> E:
     con = next((c for c in CONSTRUCTORS if c[0] == e.form), None)
     if con is None:
         return e
+    trial = plain_fill(e)
+    if trial is not None:
+        o = eval_single(trial)
+        if o is not None and disagrees(o) and partition_text(o) == want:
+            return trial
     kids = list(e.kids)
     for idx in range(len(kids)):
         for repl in (INT, STR):
@@ -665,13 +840,32 @@ def minimise(e: E) -> E:
     return build(con, kids)
 
 
+_ALIAS = {"List": "list", "Dict": "dict", "Set": "set", "FrozenSet": "frozenset", "Tuple": "tuple", "Type": "type"}
+
+
 def key_form(form: str) -> str:
-    """Special form for the mechanism key: spelling variants (typing.X / X) and the PEP 646 star placements are
-    one form each; ClassVar and Final are the two class-body qualifiers handled by one piece of code."""
-    if form.startswith("typing."):
-        form = form[len("typing."):]
+    """Special form for the mechanism key. Spellings of one form are merged (typing.X / collections.abc.X / X,
+    typing alias / builtin generic), so are the placements of a PEP 646 star or Unpack inside a tuple; ClassVar and
+    Final are the two class-body qualifiers handled by one piece of code."""
+    for prefix in ("typing.", "abc."):
+        if form.startswith(prefix):
+            form = form[len(prefix):]
+    head, dot, rest = form.partition(".")
+    form = _ALIAS.get(head, head) + dot + rest
+    if "bitor" in form:
+        return "bitor"
+    if form.startswith("Union"):
+        return "Union"
+    if form.startswith("Annotated"):
+        return "Annotated"
+    if form in ("Callable.list1", "Callable.empty"):
+        return "Callable.list"
+    if form in ("tuple.1", "tuple.3"):
+        return "tuple.fixed"
     if form.startswith("tuple.star-"):
         return "tuple.star-unpack"
+    if form.startswith("tuple.Unpack-"):
+        return "tuple.Unpack"
     if form in ("ClassVar", "Final"):
         return "ClassVar/Final"
     return form
@@ -713,6 +907,17 @@ def check_ann_batch(ctx, exprs: list, tdcases: list, depth_guard: int = 0) -> No
         return
     for e, o in zip(exprs, outcomes):
         _SINGLE.setdefault(e.src, o)
+    # minimisation works on memoised single evaluations: fetch what it will need in bulk
+    frontier = [e for e, o in zip(exprs, outcomes) if disagrees(o)]
+    bad = list(frontier)
+    for _ in range(4):
+        kids = [k for e in frontier for k in e.kids if context_of(k) == "param"]
+        if not kids:
+            break
+        prefetch(kids)
+        frontier = [k for k in kids if _SINGLE.get(k.src) is not None and disagrees(_SINGLE[k.src])]
+    prefetch([t for t in (plain_fill(descend(e)) for e in bad) if t is not None])
+    for e, o in zip(exprs, outcomes):
         judge_expr(ctx, e, o)
     for t, o in zip(tdcases, td_outcomes):
         judge_td(ctx, t, o, outcomes[index[t.e.src]])
@@ -735,6 +940,12 @@ def judge_expr(ctx, e: E, o: dict) -> None:
         ctx.count("cases_with_a_raising_route")
     if not disagrees(o):
         ctx.count("ann_all_routes_agree")
+        from pyanalyze.value import AnySource, AnyValue
+
+        if isinstance(a, AnyValue) and a.source is AnySource.error:
+            # every route rejects the expression alike: agreement, but it says nothing about the form
+            ctx.count("ann_agree_on_error_value")
+            ctx.histo("forms_rejected_by_every_route", e.form)
         if len(ctx.samples) < 3 and e.depth >= 2:
             ctx.sample({"annotation": e.src, "agreed_value": show(o["A"])})
         return
@@ -765,28 +976,29 @@ def judge_td(ctx, t: TDCase, o: dict, field_outcome: dict) -> None:
         ctx.count("td_skipped_field_expression_itself_disagrees")
         return
     if disagrees(o):
-        key = f"td|{t.syntax}|{t.qual}|{'quoted' if t.quoted else 'unquoted'}|routes|{partition_text(o)}"
+        key = f"td|{t.qual}|routes|{partition_text(o)}"
         ctx.violation(key, f"{src}: " + "; ".join(f"{r}={show(v)}" for r, v in o.items()), wit)
         return
     v = o["A"]
     if not isinstance(v, TypedDictValue) or "k" not in v.items:
-        key = f"td|{t.syntax}|{t.qual}|{'quoted' if t.quoted else 'unquoted'}|not-a-typeddict|{type(v).__name__}"
+        key = f"td|{t.qual}|not-a-typeddict|{v.typ if isinstance(v, Exc) else type(v).__name__}"
         ctx.violation(key, f"{src}: every route gives {show(v)}", wit)
         return
     entry = v.items["k"]
-    if entry.required != t.expected_required() or entry.readonly != t.expected_readonly():
-        key = f"td|{t.syntax}|{t.qual}|total={t.total}|{'quoted' if t.quoted else 'unquoted'}|flags"
-        ctx.violation(
-            key,
-            f"{src}: entry has required={entry.required} readonly={entry.readonly}, declaration says "
-            f"required={t.expected_required()} readonly={t.expected_readonly()}",
-            wit,
-        )
-        return
+    for flag, have, want, why in (
+        ("required", entry.required, t.expected_required(),
+         "NotRequired" if "NotRequired" in t.qual else "Required" if t.qual == "Required" else f"total={t.total}"),
+        ("readonly", entry.readonly, t.expected_readonly(), "ReadOnly" if "ReadOnly" in t.qual else "no-qualifier"),
+    ):
+        if have != want:
+            # keyed by the flag and the part of the declaration that decides it; syntax / quoting are in the witness
+            key = f"td|flags|{flag}|declared-by={why}|expected={want}"
+            ctx.violation(key, f"{src}: entry has {flag}={have}, the declaration says {flag}={want}", wit)
+            return
     ctx.count("td_field_type_compared")
     expected = field_outcome["Cr"]
     if not agree(entry.typ, expected):
-        key = f"td|{t.syntax}|{t.qual}|{'quoted' if t.quoted else 'unquoted'}|field-type|{t.e.form}"
+        key = f"td|field-type|{t.qual}|{key_form(t.e.form)}"
         ctx.violation(key, f"{src}: field type is {show(entry.typ)} but {t.e.src!r} alone means {show(expected)}", wit)
 
 
@@ -878,22 +1090,26 @@ def make_calls(sig: Sig, rng, n: int = 6) -> tuple:
 
 
 def gen_headers(ctx):
-    rng = ctx.rng
-    variants = ctx.pick(4, 9)
+    """Per signature shape: v0 unannotated, v1 all `int`/default 0, v2 = v0 with the first named parameter spelled
+    `__name` (the PEP 484 positional-only spelling; never combined with annotations so that it is one mechanism),
+    v3.. annotations/defaults/return drawn from the pools by the seeded rng (same stream in every shard)."""
+    rng = gen_rng(ctx, "headers")
+    variants = ctx.pick(4, 10)
     for sig0 in enumerate_sigs(ctx.pick(4, 5)):
         for v in range(variants):
             sig = sig0
-            if v >= 2 and rng.random() < 0.12:
-                # PEP 484 spelling of a positional-only parameter: leading double underscore
+            if v == 2:
                 ps = list(sig.params)
                 for i, p in enumerate(ps):
                     if p.kind in (PO, PK, KO):
                         ps[i] = Param("__" + p.name, p.kind, p.default)
                         break
+                else:
+                    continue
                 sig = Sig(tuple(ps))
             anns, defaults = [], []
             for p in sig.params:
-                if v == 0:
+                if v in (0, 2):
                     a = None
                 elif v == 1:
                     a = "int"
@@ -903,9 +1119,9 @@ def gen_headers(ctx):
                 if a is not None:
                     anns.append((p.name, a))
                 if p.default:
-                    defaults.append((p.name, "0" if v < 2 else rng.choice(DEFAULTS)))
-            ret = None if v == 0 else "int" if v == 1 else rng.choice(RETS)
-            is_async = v >= 2 and rng.random() < 0.1
+                    defaults.append((p.name, "0" if v < 3 else rng.choice(DEFAULTS)))
+            ret = None if v in (0, 2) else "int" if v == 1 else rng.choice(RETS)
+            is_async = v >= 3 and rng.random() < 0.1
             yield Header(sig, tuple(anns), tuple(defaults), ret, is_async, make_calls(sig, rng))
 
 
@@ -970,9 +1186,9 @@ def eval_headers(headers: list) -> list:
         for i, h in enumerate(headers):
             outer = outers[f"outer{i}"]
             fd = outer.body[0]
-            static = getattr(fd, "inferred_value", None)
+            static = internal_error_of([d for ln in range(outer.lineno, fd.lineno + 1) for d in n_by.get(ln, [])])
             if static is None:
-                static = internal_error_of([d for ln in range(outer.lineno, fd.lineno + 1) for d in n_by.get(ln, [])])
+                static = getattr(fd, "inferred_value", None)
             try:
                 runtime = chk.get_signature(getattr(dmod, f"f{i}"))
             except Exception as ex:  # noqa: BLE001
@@ -995,7 +1211,7 @@ def eval_headers(headers: list) -> list:
 def compare_signatures(h: Header, static, runtime) -> list:
     """-> list of (key, what). Empty if the two signatures agree."""
     from pyanalyze.signature import Signature
-    from pyanalyze.value import CallableValue, KnownValue
+    from pyanalyze.value import AnyValue, CallableValue, CanAssignError, KnownValue
 
     if isinstance(static, Exc) or isinstance(runtime, Exc) or static is None or runtime is None:
         if isinstance(static, Exc) and isinstance(runtime, Exc) and static.typ == runtime.typ:
@@ -1029,9 +1245,17 @@ def compare_signatures(h: Header, static, runtime) -> list:
             out.append((f"sig|{dk}|has-default|static={a.default is not None}|runtime={b.default is not None}",
                         f"parameter {a.name}: default {show(a.default)} from the def node, {show(b.default)} from the function object"))
             continue
-        if isinstance(a.default, KnownValue) and isinstance(b.default, KnownValue) and not agree(a.default, b.default):
-            out.append((f"sig|{dk}|default-value", f"parameter {a.name}: default {show(a.default)} vs {show(b.default)}"))
-            continue
+        if a.default is not None and not agree(a.default, b.default):
+            widened = (
+                isinstance(b.default, KnownValue) and not isinstance(a.default, (KnownValue, AnyValue))
+                and not isinstance(a.default.can_assign(b.default, checker()), CanAssignError)
+            )
+            if not widened:
+                # kind is left out of the key on purpose: both routes treat defaults of every kind alike
+                rd = type(b.default.val).__name__ if isinstance(b.default, KnownValue) else type(b.default).__name__
+                out.append((f"sig|default-value|static={type(a.default).__name__}|runtime={type(b.default).__name__}:{rd}",
+                            f"parameter {a.name}: default is {show(a.default)} from the def node, {show(b.default)} from the function object"))
+                continue
         declared = anns.get(a.name)
         if declared is None and a.name in kind_of:
             ok = mutually_assignable(a.annotation, b.annotation)
@@ -1115,6 +1339,11 @@ def judge_header(ctx, h: Header, r: dict) -> None:
     for _, a in h.anns:
         ctx.histo("header_annotation_kinds", ann_label(a))
     ctx.count("sig_params_compared", len(h.sig.params))
+    if isinstance(r["static"], Exc) and isinstance(r["runtime"], Exc) and r["static"].typ == r["runtime"].typ:
+        # both builders raise the same exception: a crash (C12), not a disagreement; nothing to compare
+        ctx.count("headers_both_routes_raise_alike")
+        ctx.histo("both_routes_raise", r["static"].typ)
+        return
     diffs = compare_signatures(h, r["static"], r["runtime"])
     seen = set()
     for key, what in diffs:
@@ -1123,6 +1352,12 @@ def judge_header(ctx, h: Header, r: dict) -> None:
         seen.add(key)
         small = reduce_header(h, key) if len(h.sig.params) > 1 else h
         hh = small if small is not h else h
+        if hh is not h:
+            try:
+                rr = eval_headers([hh])[0]
+                what = dict(compare_signatures(hh, rr["static"], rr["runtime"])).get(key, what)
+            except Exception:  # noqa: BLE001
+                pass
         ctx.violation(key, f"{hh.render_def('f')}: {what}" if hh is h else f"{hh.render_def('f')} (reduced from {text}): {what}",
                       {"kind": "header", "h": Header(hh.sig, hh.anns, hh.defaults, hh.ret, hh.is_async, ()).to_json()})
     if not diffs:
@@ -1159,7 +1394,8 @@ def shard(ctx) -> None:
     idx = 0
     for e in gen_expressions(ctx):
         if e.src in seen:
-            ctx.count("duplicates_skipped")
+            if ctx.shard == 0:
+                ctx.count("duplicates_skipped")
             continue
         seen.add(e.src)
         idx += 1
@@ -1170,7 +1406,7 @@ def shard(ctx) -> None:
             ctx.histo("runtime_invalid_forms", e.form)
             continue
         mine.append(e)
-    every = 4
+    every = ctx.pick(6, 4)
     for i in range(0, len(mine), BATCH):
         chunk = mine[i:i + BATCH]
         check_ann_batch(ctx, chunk, td_cases_for(chunk, ctx.rng, every))
